@@ -1710,7 +1710,18 @@ func aggregateTraversalSourceMatch(readingClause *cypher.ReadingClause) (*cypher
 		}
 	}
 
+	if aggregateTraversalWhereHasPatternPredicate(match.Where) {
+		return nil, nil, "", false
+	}
+
 	return match, nodePattern, nodePattern.Variable.Symbol, true
+}
+
+// aggregateTraversalWhereHasPatternPredicate reports whether a WHERE of the aggregate traversal count shape holds a
+// pattern predicate. The fast path translates the WHERE on its own, outside any query part; a pattern predicate
+// needs the frames of the part it belongs to.
+func aggregateTraversalWhereHasPatternPredicate(where *cypher.Where) bool {
+	return where != nil && len(patternPredicatesInQueryPart(where)) > 0
 }
 
 func aggregateTraversalMatch(readingClause *cypher.ReadingClause, sourceSymbol string) (*cypher.Match, *cypher.RelationshipPattern, *cypher.NodePattern, string, bool) {
@@ -1750,6 +1761,10 @@ func aggregateTraversalMatch(readingClause *cypher.ReadingClause, sourceSymbol s
 			if dependency != rightNode.Variable.Symbol {
 				return nil, nil, nil, "", false
 			}
+		}
+
+		if aggregateTraversalWhereHasPatternPredicate(match.Where) {
+			return nil, nil, nil, "", false
 		}
 	}
 
